@@ -76,7 +76,7 @@ PROPS = {
     },
     "C13": {
         
-        "lean_props": ["ZarrsModel.Props.C13", "ZarrsModel.Props.C13V2", "ZarrsModel.Props.C13V2Conv", "ZarrsModel.Props.C13Opts"],
+        "lean_props": ["ZarrsModel.Props.C13", "ZarrsModel.Props.C13V2", "ZarrsModel.Props.C13V2Conv", "ZarrsModel.Props.C13Opts", "ZarrsModel.Props.C13Cons", "ZarrsModel.Props.C13Build"],
         "harness": "c13",
         "rule": "MetadataV3 texts (24 fixed forms incl. sequence form, null/ill-typed members, unknown keys + random); structured ArrayMetadataV3 documents: ranks 0..3, 7 data types with matching fill "
                 "values, string/object/empty-configuration name forms, all chunk key encodings, transpose/bytes/gzip/crc32c/zstd codec lists with unknown skippable codecs, attributes (nested, unicode, "
